@@ -235,11 +235,53 @@ func feed(c Case, evs []et.Event, pauses []int, res *pbt.Result) runOut {
 			must[e.ID] = true
 		}
 	}
+	// sliding: an id is due in every covering interval from the aligned start of the earliest accepted row on
+	type pair struct {
+		id int
+		ws int64
+	}
+	var duePairs []pair
+	if c.Kind == "sliding" {
+		minAcc := int64(-1)
+		for i, e := range evs {
+			if e.Garbage == "" && !arr[i].Late && (minAcc < 0 || e.TS < minAcc) {
+				minAcc = e.TS
+			}
+		}
+		s0 := minAcc / c.SlideMs * c.SlideMs
+		for i, e := range evs {
+			if e.Garbage != "" || arr[i].Late {
+				continue
+			}
+			for _, ws := range windowsOf(c, e.TS) {
+				if ws >= s0 && ws+c.SizeMs <= flush.TS-c.OOOMs {
+					duePairs = append(duePairs, pair{e.ID, ws})
+				}
+			}
+		}
+	}
 	in.WaitFor(pbt.Wait(4*time.Second), func(ds []run.Delivery) bool {
 		seen := et.SeenIDs(ds)
 		for id := range must {
 			if !seen[id] {
 				return false
+			}
+		}
+		if len(duePairs) > 0 {
+			got := map[pair]bool{}
+			for _, d := range ds {
+				for _, r := range d.Rows {
+					ws, _ := et.MsOf(r["ws"])
+					ids, _ := et.IDs(r["ids"])
+					for _, id := range ids {
+						got[pair{id, ws}] = true
+					}
+				}
+			}
+			for _, p := range duePairs {
+				if !got[p] {
+					return false
+				}
 			}
 		}
 		return true
@@ -512,17 +554,36 @@ func checkLateUpdates(c Case, arr []et.Arrival, rows []drow, res *pbt.Result) {
 				}
 				continue
 			}
-			if !open {
-				// surely closed: two distinct watermark values >= we+AL were produced before L (the first
-				// trigger round closes the window, the second proves the first has finished)
-				vals := map[int64]bool{}
+			if !open && c.Kind == "tumbling" {
+				// surely closed: before L arrived, two trigger rounds at watermarks >= we+AL each fired a window
+				// holding accepted rows (so the barrier observed their deliveries); the trigger goroutine is
+				// sequential, hence the first round - which closes W after delivering - had finished.
+				rounds := 0
+				prevWM := int64(-1 << 62)
 				for j := 0; j < i; j++ {
-					if arr[j].WM >= we+c.ALMs && evs[j].Garbage == "" && !arr[j].Late {
-						vals[arr[j].WM] = true
+					if evs[j].Garbage != "" || arr[j].WM <= prevWM {
+						continue
 					}
+					wmj := arr[j].WM
+					fired := false
+					for k := 0; k <= j; k++ {
+						e := evs[k]
+						if e.Garbage != "" || arr[k].Late {
+							continue
+						}
+						end := e.TS/c.SizeMs*c.SizeMs + c.SizeMs
+						if end > prevWM && end <= wmj {
+							fired = true
+							break
+						}
+					}
+					if fired && wmj >= we+c.ALMs {
+						rounds++
+					}
+					prevWM = wmj
 				}
-				if len(vals) >= 3 && withL > 0 {
-					res.Add(pbt.D("late-update-after-allowance", "%s: late id %d ts=%d arrived at watermark %d, after window [%d,%d) + allowance %d had expired, yet a result contains it", c.Kind, L.ID, L.TS, wm, ws, we, c.ALMs))
+				if rounds >= 2 && withL > 0 {
+					res.Add(pbt.D("late-update-after-allowance", "%s: late id %d ts=%d arrived at watermark %d, after window [%d,%d) + allowance %d had expired (two later trigger rounds observed), yet a result contains it", c.Kind, L.ID, L.TS, wm, ws, we, c.ALMs))
 				}
 			}
 		}
@@ -551,7 +612,7 @@ func features(c Case) []string {
 var spec = pbt.Spec[Case]{
 	ID:   "C02",
 	Rule: "generated: event-time tumbling, sliding and session windows with MAXOUTOFORDERNESS and ALLOWEDLATENESS in {0, size/2, 2*size}, 0-3 groups, jittered timelines with rows of graded lateness, bursts without pauses, far-future (year 2100) rows and rows without a usable timestamp (missing, NULL, non-numeric string); with ALLOWEDLATENESS > 0 rows are fed in barrier mode (all due firings delivered before each late row). oracle (invariants over the delivery history, each delivery stamped with the number of Emit calls begun): no early firing; every not-late-on-arrival row reported; garbage rows in no result and results equal with and without them (metamorphic twin run); a window is re-delivered only with an allowance, under the same window_id, with contents = previous + late rows; late row into a fired window still inside the allowance => re-delivery containing it; after the allowance surely expired => not contained. non-trivial = a late row, a garbage row, or a burst >= 10 rows with >= 2 windows; distinct by case hash",
-	Assumptions: []string{"lateness of an update is judged by window end + allowance (Flink semantics); in the sliver where the window is still open but the row is older than watermark - allowance either outcome is accepted", "a window counts as surely closed only after three distinct later watermark values (trigger rounds) - otherwise either outcome is accepted", "rows late on arrival may be counted or not"},
+	Assumptions: []string{"lateness of an update is judged by window end + allowance (Flink semantics); in the sliver where the window is still open but the row is older than watermark - allowance either outcome is accepted", "a window counts as surely closed only after two later trigger rounds whose deliveries the barrier observed - otherwise either outcome is accepted", "rows late on arrival may be counted or not"},
 	Gen:      genCase,
 	Run:      runCase,
 	Features: features,
